@@ -17,6 +17,7 @@ import warnings
 from fractions import Fraction
 
 import numpy as np
+import pandas as pd
 
 from common import coq_eval, frac, close, qlit, TOL_ARITH
 
@@ -48,6 +49,10 @@ TIE_TOL = 1e-7
 LOG = [None]
 
 
+TRUTH = [None]
+YBAD = []
+
+
 def _spy_class():
     from sklearn.base import BaseEstimator
 
@@ -63,6 +68,10 @@ def _spy_class():
 
         def fit(self, X, y):
             y = np.asarray(y, dtype=float)
+            if TRUTH[0] is not None:      # the outcome values handed to a candidate must be those of its training rows
+                ids = np.asarray(X)[:, 0].astype(int)
+                if len(y) != len(ids) or not np.array_equal(y, TRUTH[0][ids]):
+                    YBAD.append((self.cid, [int(v) for v in ids[:6]]))
             self.mu_ = float(np.mean(y))
             self.lo_, self.hi_ = float(np.min(y)), float(np.max(y))
             if LOG[0] is not None:
@@ -145,7 +154,21 @@ def sl_run(spec):
             try:
                 sl = SuperLearner(cands, ['c%d' % i for i in range(len(cands))], folds=spec['k'],
                                   loss_function=spec['loss'], discrete=spec['discrete'])
-                sl.fit(X, y)
+                TRUTH[0] = np.asarray(y, dtype=float)
+                del YBAD[:]
+                carrier = ['ndarray', 'series', 'series-permuted-index', 'list'][spec['dseed'] % 4]
+                if carrier == 'series':
+                    yarg = pd.Series(y)
+                elif carrier == 'series-permuted-index':       # labels are a permutation of 0..n-1 (e.g. after df.sample(frac=1))
+                    yarg = pd.Series(y, index=np.random.RandomState(spec['dseed']).permutation(len(y)))
+                elif carrier == 'list':
+                    yarg = [float(v) for v in y]
+                else:
+                    yarg = y
+                out['y_carrier'] = carrier
+                sl.fit(X, yarg)
+                out['y_misaligned'] = list(YBAD)
+                TRUTH[0] = None
                 out['n_fit_log'] = len(log)
                 out['coefficients'] = [float(v) for v in sl.coefficients]
                 out['perf_coefs'] = [float(v) for v in sl.est_performance['coefs']]
@@ -294,6 +317,10 @@ def check_sl(ctx, specs, fails):
         def bad(key, what):
             fails.append((size, key, what + ' ' + where, payload))
         ctx.disagreements_checked += 1
+        ctx.count('y-carrier:' + str(o.get('y_carrier')))
+        if o.get('y_misaligned'):
+            bad('SuperLearner.fit.y-misaligned', 'a candidate was fitted on outcome values that are not those of its training rows (y given as %s; first: candidate %r rows %r)'
+                % (o.get('y_carrier'), o['y_misaligned'][0][0], o['y_misaligned'][0][1]))
         # ---- guards
         if status == 1:
             if not (o['error'] or '').startswith('ValueError'):
